@@ -2,9 +2,9 @@ package main
 
 import (
 	"fmt"
-	"unsafe"
 	"go/token"
 	"go/types"
+	"unsafe"
 
 	"golang.org/x/tools/go/ssa"
 )
